@@ -10,3 +10,4 @@ pub mod cache;
 pub mod spawny;
 pub mod errs;
 pub mod aggs;
+pub mod tree;
